@@ -178,4 +178,21 @@ def fullLevel (hasCn1 : Bool) (f : Seg → Option Rat) (r : Seg) : Option Rat ×
 def specSquash (hasCn1 : Bool) (f : Seg → Option Rat) (t : List Seg) : List Seg :=
   (splitRuns (fullLevel hasCn1 f) t).filterMap squashRegion
 
+/-- what `ampdel` makes of one group: nothing when its first row is neutral, the squashed run otherwise -/
+def ampdelPick (g' : List Seg) : Option Seg :=
+  match g' with
+  | [] => none
+  | x :: _ => if levelAmpdel x == some 0 then none else squashRegion g'
+
+/-- a run `ampdel` keeps: its first (hence every) member is deleted or amplified -/
+def ampdelKeep (g : List Seg) : Bool :=
+  match g with
+  | [] => false
+  | x :: _ => levelAmpdel x != some 0
+
+/-- the run-based wording of `ampdel`: the maximal runs of equal amplified / deleted / neutral status (and equal
+    allele-specific copy numbers), the neutral ones dropped, each of the others squashed to one row -/
+def specAmpdel (h : Bool) (t : List Seg) : List Seg :=
+  ((splitRuns (fullLevel h levelAmpdel) t).filter ampdelKeep).filterMap squashRegion
+
 end CnvVerif
